@@ -100,20 +100,20 @@ type Explorer struct {
 	// KnownSeen: known finding id -> witnessed
 	KnownSeen map[string]*Finding
 	cache     map[string]smt.Result
+	solvers   [4]*smt.Solver
 	deadline  time.Time
 	Trace     bool
 	Emitted   []string
 	assumed   map[string]bool
 }
 
-// Solvers returns the live/used solver handles (for statistics).
+// Solvers returns the used solver handles (for statistics).
 func (e *Explorer) Solvers() []*smt.Solver {
 	var out []*smt.Solver
-	if e.Lin != nil {
-		out = append(out, e.Lin)
-	}
-	if e.NL != nil {
-		out = append(out, e.NL)
+	for _, s := range e.solvers {
+		if s != nil {
+			out = append(out, s)
+		}
 	}
 	return out
 }
@@ -139,6 +139,7 @@ type Options struct {
 	Unwind     int
 	MaxPaths   int
 	TimeoutMs  int
+	FeasTimeoutMs int // timeout of feasibility queries (unknown = keep the path)
 	Solver     string // "z3" (default), "z3-new", "cvc5"
 	NLSolver   string // default "cvc5-int"
 	StrictCap  bool   // flag reslicing beyond len (within cap)
@@ -151,80 +152,92 @@ type Options struct {
 	Params map[string]string
 }
 
-func (e *Explorer) solverFor(ts []*smt.Term) *smt.Solver {
-	for _, t := range ts {
-		if t.NL {
-			if e.NL == nil {
-				k := e.Opt.NLSolver
-				if k == "" {
-					k = "cvc5-int"
-				}
-				s, err := smt.NewSolver(k, e.Opt.TimeoutMs)
-				if err != nil {
-					panic(err)
-				}
-				if lf := os.Getenv("GOSX_SMTLOG_NL"); lf != "" {
-					f, _ := os.Create(lf)
-					s.Log = f
-				}
-				e.NL = s
-			}
-			return e.NL
+// solver kinds: [fast?][nonlinear?]
+func (e *Explorer) getSolver(nl, fast bool) *smt.Solver {
+	idx := 0
+	if nl {
+		idx |= 1
+	}
+	if fast {
+		idx |= 2
+	}
+	if e.solvers[idx] != nil {
+		return e.solvers[idx]
+	}
+	kind := e.Opt.Solver
+	if kind == "" {
+		kind = "z3"
+	}
+	if nl {
+		kind = e.Opt.NLSolver
+		if kind == "" {
+			kind = "cvc5-int"
 		}
 	}
-	if e.Lin == nil {
-		k := e.Opt.Solver
-		if k == "" {
-			k = "z3"
-		}
-		s, err := smt.NewSolver(k, e.Opt.TimeoutMs)
-		if err != nil {
-			panic(err)
-		}
-		if lf := os.Getenv("GOSX_SMTLOG"); lf != "" {
-			f, _ := os.Create(lf)
-			s.Log = f
-		}
-		e.Lin = s
+	to := e.Opt.TimeoutMs
+	if fast {
+		to = e.Opt.FeasTimeoutMs
 	}
-	return e.Lin
+	sv, err := smt.NewSolver(kind, to)
+	if err != nil {
+		panic(err)
+	}
+	if lf := os.Getenv("GOSX_SMTLOG"); lf != "" {
+		f, _ := os.Create(fmt.Sprintf("%s.%d", lf, idx))
+		sv.Log = f
+	}
+	e.solvers[idx] = sv
+	if !fast {
+		if nl {
+			e.NL = sv
+		} else {
+			e.Lin = sv
+		}
+	}
+	return sv
 }
 
 func (e *Explorer) Close() {
-	e.Lin.Close()
-	e.NL.Close()
+	for _, s := range e.solvers {
+		s.Close()
+	}
 }
 
-// check decides satisfiability of the conjunction.
-func (e *Explorer) check(ts []*smt.Term, vals []*smt.Term) (smt.Result, []uint64) {
+func isNL(ts []*smt.Term) bool {
+	for _, t := range ts {
+		if t.NL {
+			return true
+		}
+	}
+	return false
+}
+
+// check decides satisfiability of the conjunction. fast selects the
+// short-timeout solvers used for feasibility questions (unknown = keep).
+func (e *Explorer) check(ts []*smt.Term, vals []*smt.Term, fast bool) (smt.Result, []uint64) {
+	nl := isNL(ts)
 	if len(vals) == 0 {
 		var sb strings.Builder
 		for _, t := range ts {
 			fmt.Fprintf(&sb, "%d,", t.ID)
 		}
 		k := sb.String()
-		if r, ok := e.cache[k]; ok {
+		if r, ok := e.cache[k]; ok && (r != smt.Unknown || fast) {
 			return r, nil
 		}
-		s := e.solverFor(ts)
-		r, _ := s.Check(ts, nil)
-		if r == smt.Unknown && s == e.NL {
-			// second opinion from the bit-blasting solver
-			r, _ = e.linSolver().Check(ts, nil)
+		r, _ := e.getSolver(nl, fast).Check(ts, nil)
+		if r == smt.Unknown {
+			// second opinion from the other back end
+			r, _ = e.getSolver(!nl, fast).Check(ts, nil)
 		}
 		e.cache[k] = r
 		return r, nil
 	}
-	s := e.solverFor(ts)
-	r, v := s.Check(ts, vals)
-	if r == smt.Unknown && s == e.NL {
-		r, v = e.linSolver().Check(ts, vals)
+	r, v := e.getSolver(nl, fast).Check(ts, vals)
+	if r == smt.Unknown {
+		r, v = e.getSolver(!nl, fast).Check(ts, vals)
 	}
 	return r, v
-}
-
-func (e *Explorer) linSolver() *smt.Solver {
-	return e.solverFor(nil)
 }
 
 // ---- path aborts ----
@@ -272,6 +285,8 @@ type Machine struct {
 	steps    int64
 	events   []string
 	pcSet    map[*smt.Term]bool
+	// isAssumption marks path-condition conjuncts that come from vx.Assume
+	isAssumption map[*smt.Term]bool
 }
 
 type lockState struct {
@@ -344,11 +359,32 @@ func (m *Machine) slice(goals []*smt.Term) (cone, rest []*smt.Term) {
 	return
 }
 
+// query answers a feasibility question (short timeout; unknown = keep).
 func (m *Machine) query(extra ...*smt.Term) smt.Result {
 	cone, _ := m.slice(extra)
 	ts := append(cone, extra...)
-	r, _ := m.E.check(ts, nil)
+	r, _ := m.E.check(ts, nil, true)
 	return r
+}
+
+// prove reports whether pc implies cond, trying the harness assumptions alone
+// first (a subset of the path condition suffices for a proof and is often far
+// easier for the solver than the whole cone).
+func (m *Machine) prove(cond *smt.Term) bool {
+	neg := m.C.Not(cond)
+	cone, _ := m.slice([]*smt.Term{neg})
+	var as []*smt.Term
+	for _, t := range cone {
+		if m.isAssumption[t] {
+			as = append(as, t)
+		}
+	}
+	if len(as) < len(cone) {
+		if r, _ := m.E.check(append(as, neg), nil, true); r == smt.Unsat {
+			return true
+		}
+	}
+	return false
 }
 
 // Branch decides the direction of a conditional on cond and extends the
@@ -471,7 +507,7 @@ func (m *Machine) Concretize(t *smt.Term, limit int) uint64 {
 	for _, v := range d.explored {
 		ts = append(ts, m.C.Not(m.C.Eq(t, m.C.Const(v, t.W))))
 	}
-	r, vals := e.check(ts, []*smt.Term{t})
+	r, vals := e.check(ts, []*smt.Term{t}, false)
 	if r == smt.Unsat {
 		d.checked = true
 		d.noAlt = true
@@ -588,10 +624,10 @@ func (m *Machine) model(extra ...*smt.Term) (smt.Result, []InputVal) {
 			}
 		}
 		if len(vars) == 0 {
-			r, _ := m.E.check(ts, nil)
+			r, _ := m.E.check(ts, nil, false)
 			return r
 		}
-		r, vals := m.E.check(ts, vars)
+		r, vals := m.E.check(ts, vars, false)
 		if r == smt.Sat {
 			for i, v := range vars {
 				md[v.Name] = vals[i]
@@ -626,6 +662,11 @@ func (m *Machine) Obligation(kind, name, site string, cond *smt.Term) {
 	e.Stats.AssertReached[key]++
 	if cond.IsTrue() {
 		e.Stats.AssertProved[key]++
+		return
+	}
+	if m.prove(cond) {
+		e.Stats.AssertProved[key]++
+		m.assume(cond)
 		return
 	}
 	neg := m.C.Not(cond)
@@ -737,6 +778,9 @@ func NewExplorer(p *Program, harness string, opt Options) *Explorer {
 	}
 	if opt.TimeoutMs == 0 {
 		opt.TimeoutMs = 20000
+	}
+	if opt.FeasTimeoutMs == 0 {
+		opt.FeasTimeoutMs = 3000
 	}
 	if opt.MaxPaths == 0 {
 		opt.MaxPaths = 2000000
